@@ -22,6 +22,13 @@
 //     atEOF = true for everything still buffered - and with or without (0, nil) reads in
 //     front of every piece and of the final EOF.
 //
+// Documents with VERY LONG LINES (2^20 - 1 octets and more: bigLines()) are recorded in the
+// run-length form: the document, every token's data and info are sequences of runs
+// [octet, count] ("form": "runs" on the reset line of the trace).  The encoding is lossless;
+// the judgement (is this token the next piece of the document, do all pieces add up to the
+// document, same tokens as the reference run) is made by TLC over the runs (Styling.tla, "the
+// run-length form"); the driver writes EVERY run of such a document as a trace.
+//
 // Every reader is wrapped in a recorder; the reads the decoder actually performed (cumulative
 // offsets, and how EOF was signalled) are part of the trace ("rd", "eof"): TrStyling checks
 // that they are a legal delivery of the input (LegalDelivery of Styling.tla).
@@ -86,6 +93,30 @@ func ints(b []byte) []int {
 	out := make([]int, len(b))
 	for i, c := range b {
 		out[i] = int(c)
+	}
+	return out
+}
+
+// runs is the run-length form of b: [octet, count] pairs, adjacent runs carry different
+// octets, no empty run.
+func runs(b []byte) [][2]int {
+	out := [][2]int{}
+	for i := 0; i < len(b); {
+		j := i + 1
+		for j < len(b) && b[j] == b[i] {
+			j++
+		}
+		out = append(out, [2]int{int(b[i]), j - i})
+		i = j
+	}
+	return out
+}
+
+// expand is the inverse of runs (replay files carry long documents as runs).
+func expand(rs [][2]int) []byte {
+	var out []byte
+	for _, r := range rs {
+		out = append(out, bytes.Repeat([]byte{byte(r[0])}, r[1])...)
 	}
 	return out
 }
@@ -264,8 +295,14 @@ func deliveries(in []byte, full bool, nrand int, rnd *rand.Rand) []readerKind {
 	rs = append(rs,
 		own("whole", nil, true, 0),
 		own("whole", nil, false, 2),
-		readerKind{"iotest.DataErrReader", func(in []byte) io.Reader { return iotest.DataErrReader(bytes.NewReader(in)) }},
 	)
+	// iotest.DataErrReader hands out at most 1024 octets per Read: as every Read is followed by
+	// a scan of everything buffered, it is left out for the very long lines (their end style
+	// "EOF with the last data" comes from this package's reader)
+	dataErr := n <= 1<<19
+	if dataErr {
+		rs = append(rs, readerKind{"iotest.DataErrReader", func(in []byte) io.Reader { return iotest.DataErrReader(bytes.NewReader(in)) }})
+	}
 	if n <= 64 {
 		for k := 1; k < n; k++ {
 			rs = append(rs, own("split@"+strconv.Itoa(k), []int{k}, false, 0), own("split@"+strconv.Itoa(k), []int{k}, true, 0))
@@ -291,15 +328,24 @@ func deliveries(in []byte, full bool, nrand int, rnd *rand.Rand) []readerKind {
 		}
 	}
 	if n > 64 {
-		for _, c := range []int{1000, 4096} {
+		// the split function sees everything buffered so far after every Read: the cost of a
+		// run is quadratic in length / piece size, so the pieces grow with the document
+		sizes := []int{1000, 4096}
+		if n > 1<<19 {
+			sizes = []int{4096}
+		}
+		if n > 1<<21 {
+			sizes = []int{65536}
+		}
+		for _, c := range sizes {
 			rs = append(rs, own("chunks of "+strconv.Itoa(c), fixedCuts(n, c), false, 0), own("chunks of "+strconv.Itoa(c), fixedCuts(n, c), true, 0))
 		}
-		rs = append(rs,
-			readerKind{"iotest.HalfReader", func(in []byte) io.Reader { return iotest.HalfReader(bytes.NewReader(in)) }},
-			readerKind{"iotest.DataErrReader(HalfReader)", func(in []byte) io.Reader {
+		rs = append(rs, readerKind{"iotest.HalfReader", func(in []byte) io.Reader { return iotest.HalfReader(bytes.NewReader(in)) }})
+		if dataErr {
+			rs = append(rs, readerKind{"iotest.DataErrReader(HalfReader)", func(in []byte) io.Reader {
 				return iotest.DataErrReader(iotest.HalfReader(bytes.NewReader(in)))
-			}},
-		)
+			}})
+		}
 	}
 	if n > 2 && n <= 5000 {
 		for i := 0; i < nrand; i++ {
@@ -329,6 +375,9 @@ func errName(err error) string {
 // obs is one observation: a token (Next() = true) or the end of the run.
 type obs struct {
 	end     bool
+	rle     bool     // data and info are kept as runs (documents in the run-length form)
+	druns   [][2]int // run-length form of the token's data
+	iruns   [][2]int // run-length form of the token's info
 	data    []byte
 	mask    styling.Style
 	q       uint
@@ -341,6 +390,9 @@ type obs struct {
 func (o obs) ev() vt.Ev {
 	if o.end {
 		return vt.Ev{"ev": "end", "panic": o.panic, "runaway": o.runaway, "err": o.err}
+	}
+	if o.rle {
+		return vt.Ev{"ev": "tok", "data": o.druns, "m": maskNames(o.mask), "q": int(o.q), "info": o.iruns}
 	}
 	return vt.Ev{"ev": "tok", "data": ints(o.data), "m": maskNames(o.mask), "q": int(o.q), "info": ints(o.info)}
 }
@@ -356,7 +408,8 @@ func evs(os []obs) []vt.Ev {
 func clone(b []byte) []byte { return append([]byte{}, b...) }
 
 // observe runs one decoder over r and returns the observations in program order.
-func observe(api string, in []byte, r io.Reader) (out []obs) {
+// rle: the observations keep the run-length form of data and info instead of a copy.
+func observe(api string, in []byte, r io.Reader, rle bool) (out []obs) {
 	limit := 2*len(in) + 16
 	calls := 0
 	end := obs{end: true, err: "EOF"}
@@ -383,6 +436,10 @@ func observe(api string, in []byte, r io.Reader) (out []obs) {
 				end.runaway = true
 				return out
 			}
+			if rle {
+				out = append(out, obs{rle: true, druns: runs(s.Bytes()), iruns: [][2]int{}})
+				continue
+			}
 			out = append(out, obs{data: clone(s.Bytes())})
 		}
 		if s.Err() != nil {
@@ -400,6 +457,10 @@ func observe(api string, in []byte, r io.Reader) (out []obs) {
 		tok := d.Token()
 		mask := d.Style()
 		q := d.Quote()
+		if rle {
+			out = append(out, obs{rle: true, druns: runs(tok.Data), iruns: runs(tok.Info), mask: mask, q: q})
+			continue
+		}
 		out = append(out, obs{data: clone(tok.Data), mask: mask, q: q, info: clone(tok.Info)})
 	}
 	end.err = errName(d.Err())
@@ -421,6 +482,23 @@ func key(os []obs) string {
 			b = append(b, o.err...)
 			continue
 		}
+		if o.rle { // the run-length form in normal form is injective as well
+			b = append(b, 'R')
+			for _, rs := range [][][2]int{o.druns, o.iruns} {
+				b = strconv.AppendInt(b, int64(len(rs)), 10)
+				for _, r := range rs {
+					b = append(b, ':')
+					b = strconv.AppendInt(b, int64(r[0]), 10)
+					b = append(b, 'x')
+					b = strconv.AppendInt(b, int64(r[1]), 10)
+				}
+				b = append(b, '/')
+			}
+			b = strconv.AppendUint(b, uint64(o.mask), 16)
+			b = append(b, '/')
+			b = strconv.AppendUint(b, uint64(o.q), 10)
+			continue
+		}
 		b = append(b, 'T')
 		b = strconv.AppendInt(b, int64(len(o.data)), 10)
 		b = append(b, ':')
@@ -437,14 +515,15 @@ func key(os []obs) string {
 }
 
 type diffCase struct {
-	API    string  `json:"api"`
-	Input  []int   `json:"input"`
-	Text   string  `json:"text"`
-	Reader string  `json:"reader"`
-	Shard  int     `json:"shard"`
-	T      int     `json:"t"`
-	Ref    []vt.Ev `json:"ref"`
-	Got    []vt.Ev `json:"got"`
+	API    string   `json:"api"`
+	Input  []int    `json:"input"`
+	Runs   [][2]int `json:"input_runs,omitempty"`
+	Text   string   `json:"text"`
+	Reader string   `json:"reader"`
+	Shard  int      `json:"shard"`
+	T      int      `json:"t"`
+	Ref    []vt.Ev  `json:"ref"`
+	Got    []vt.Ev  `json:"got"`
 }
 
 // job is one input with the APIs to run it through and the size of its delivery dimension.
@@ -455,6 +534,7 @@ type job struct {
 	nrand int    // seeded random multi-way cuts
 	extra string // a named delivery to add (replay)
 	class string
+	rle   bool // recorded in the run-length form; every run is written as a trace
 }
 
 // runner processes the inputs of one shard (one goroutine, one trace file, own seeded rnd).
@@ -475,6 +555,8 @@ type runner struct {
 	byReader   map[string]int
 	byClass    map[string]int
 	eofStyles  map[string]int
+	bigRuns    int
+	bigSamples []interface{}
 }
 
 func kindOf(name string) string {
@@ -491,6 +573,25 @@ func (r *runner) doInput(j job) {
 	in := j.in
 	r.inputs++
 	r.byClass[j.class]++
+	// how the document appears in traces, metadata and replay cases
+	form := "octets"
+	var doc interface{} = ints(in)
+	meta := func(api, reader string) map[string]interface{} {
+		return map[string]interface{}{"api": api, "input": doc, "text": strconv.Quote(string(in)), "reader": reader}
+	}
+	dc := diffCase{Input: []int{}}
+	if j.rle {
+		form = "runs"
+		rs := runs(in)
+		doc = rs
+		desc := describeRuns(rs)
+		meta = func(api, reader string) map[string]interface{} {
+			return map[string]interface{}{"api": api, "input": []int{}, "input_runs": rs, "text": desc, "reader": reader}
+		}
+		dc.Runs, dc.Text = rs, desc
+	} else {
+		dc.Input, dc.Text = ints(in), strconv.Quote(string(in))
+	}
 	for _, api := range j.apis {
 		rs := deliveries(in, j.full, j.nrand, r.rnd)
 		if j.extra != "" {
@@ -499,29 +600,38 @@ func (r *runner) doInput(j job) {
 			}
 		}
 		rec := &recReader{r: rs[0].mk(in), eof: "none", offs: make([]int, 0, 2)}
-		ref := observe(api, in, rec)
+		ref := observe(api, in, rec, j.rle)
 		refKey := key(ref)
 		r.runs++
 		refEvs := evs(ref)
-		t := r.tw.Write(vt.Ev{"input": ints(in), "api": api, "ref": []vt.Ev{}, "rd": rec.offs, "eof": rec.eof}, refEvs)
-		r.tw.Meta(map[string]interface{}{"api": api, "input": ints(in), "text": strconv.Quote(string(in)), "reader": rs[0].name})
+		t := r.tw.Write(vt.Ev{"form": form, "input": doc, "api": api, "ref": []vt.Ev{}, "rd": rec.offs, "eof": rec.eof}, refEvs)
+		r.tw.Meta(meta(api, rs[0].name))
 		if len(r.samples) < 3 && api == "decoder" && len(ref) > 4 && len(in) < 40 {
 			r.samples = append(r.samples, map[string]interface{}{"input": strconv.Quote(string(in)), "reader": "whole", "observations": refEvs})
+		}
+		if j.rle && len(r.bigSamples) < 2 {
+			r.bigSamples = append(r.bigSamples, map[string]interface{}{"input_runs": doc, "octets": len(in), "reader": "whole", "observations": refEvs})
 		}
 		seen := map[string]bool{refKey: true}
 		any := false
 		for _, rk := range rs[1:] {
 			rec := &recReader{r: rk.mk(in), eof: "none", offs: make([]int, 0, 8)}
-			got := observe(api, in, rec)
+			got := observe(api, in, rec, j.rle)
 			r.runs++
 			r.eofStyles[rec.eof]++
+			if j.rle {
+				r.bigRuns++
+			}
 			k := key(got)
 			if k == refKey {
 				r.same++
-				if r.rnd.Float64() < r.sampleRate {
+				// documents in the run-length form are few: TLC sees every run of them
+				if j.rle || r.rnd.Float64() < r.sampleRate {
 					r.sampled++
-					r.tw.Write(vt.Ev{"input": ints(in), "api": api, "ref": refEvs, "rd": rec.offs, "eof": rec.eof}, evs(got))
-					r.tw.Meta(map[string]interface{}{"api": api, "input": ints(in), "text": strconv.Quote(string(in)), "reader": rk.name, "sample": true})
+					r.tw.Write(vt.Ev{"form": form, "input": doc, "api": api, "ref": refEvs, "rd": rec.offs, "eof": rec.eof}, evs(got))
+					m := meta(api, rk.name)
+					m["sample"] = true
+					r.tw.Meta(m)
 				}
 				continue
 			}
@@ -532,10 +642,14 @@ func (r *runner) doInput(j job) {
 				continue
 			}
 			seen[k] = true
-			t = r.tw.Write(vt.Ev{"input": ints(in), "api": api, "ref": refEvs, "rd": rec.offs, "eof": rec.eof}, evs(got))
-			r.tw.Meta(map[string]interface{}{"api": api, "input": ints(in), "text": strconv.Quote(string(in)), "reader": rk.name, "differs": true})
+			t = r.tw.Write(vt.Ev{"form": form, "input": doc, "api": api, "ref": refEvs, "rd": rec.offs, "eof": rec.eof}, evs(got))
+			m := meta(api, rk.name)
+			m["differs"] = true
+			r.tw.Meta(m)
 			if len(r.diffs) < 100 {
-				r.diffs = append(r.diffs, diffCase{API: api, Input: ints(in), Text: strconv.Quote(string(in)), Reader: rk.name, Shard: r.shard, T: t, Ref: refEvs, Got: evs(got)})
+				d := dc
+				d.API, d.Reader, d.Shard, d.T, d.Ref, d.Got = api, rk.name, r.shard, t, refEvs, evs(got)
+				r.diffs = append(r.diffs, d)
 			}
 		}
 		if any {
@@ -545,6 +659,19 @@ func (r *runner) doInput(j job) {
 			r.distinct[k] = true
 		}
 	}
+}
+
+// describeRuns renders a document in the run-length form for messages: "a"x1048577 "\n" "b".
+func describeRuns(rs [][2]int) string {
+	var parts []string
+	for _, r := range rs {
+		p := strconv.Quote(string([]byte{byte(r[0])}))
+		if r[1] > 1 {
+			p += "x" + strconv.Itoa(r[1])
+		}
+		parts = append(parts, p)
+	}
+	return strings.Join(parts, " ")
 }
 
 func enumerate(n int, f func([]byte)) {
@@ -696,6 +823,34 @@ func longLines() [][]byte {
 	return out
 }
 
+// bigLines are documents with one line of a length around a power of two from 2^20 up
+// (what a buffer with a fixed cap, a doubling buffer or a 32-bit length would trip over), in
+// the shapes of longLines: plain; followed by a short line; inside a span; inside a quote.
+// They are recorded in the run-length form.
+func bigLines(tier string) [][]byte {
+	ns := []int{1<<20 - 1, 1 << 20, 1<<20 + 1, 1<<22 + 1}
+	if tier == "thorough" {
+		ns = append(ns, 1<<21-1, 1<<21+1, 1<<22-1, 1<<22, 1<<23+1, 1<<24+1)
+	}
+	if v := os.Getenv("STYLING_BIG"); v != "" { // comma separated lengths ("0": none)
+		ns = nil
+		for _, f := range strings.Split(v, ",") {
+			if n, err := strconv.Atoi(f); err == nil && n > 2 {
+				ns = append(ns, n)
+			}
+		}
+	}
+	var out [][]byte
+	for _, n := range ns {
+		line := bytes.Repeat([]byte{'a'}, n)
+		out = append(out, line)
+		out = append(out, append(append([]byte{}, line...), '\n', 'b'))
+		out = append(out, append(append([]byte("*"), line[:n-2]...), '*'))
+		out = append(out, append(append([]byte("> "), line[:n-2]...), "\nc"...))
+	}
+	return out
+}
+
 func main() {
 	if len(os.Args) < 4 {
 		fmt.Fprintln(os.Stderr, "usage: styling run <trace.ndjson> <result.json> | styling replay <case.json> <trace.ndjson> <result.json>")
@@ -727,9 +882,10 @@ func main() {
 			panic(err)
 		}
 		var c struct {
-			Input  []int  `json:"input"`
-			API    string `json:"api"`
-			Reader string `json:"reader"`
+			Input  []int    `json:"input"`
+			Runs   [][2]int `json:"input_runs"`
+			API    string   `json:"api"`
+			Reader string   `json:"reader"`
 		}
 		if err := json.Unmarshal(b, &c); err != nil {
 			panic(err)
@@ -739,7 +895,11 @@ func main() {
 			in[i] = byte(x)
 		}
 		sampleRate = 1
-		jobs = append(jobs, job{in: in, apis: []string{c.API}, full: true, nrand: 4, extra: c.Reader, class: "replay"})
+		if len(c.Runs) > 0 {
+			jobs = append(jobs, job{in: expand(c.Runs), apis: []string{c.API}, extra: c.Reader, class: "replay", rle: true})
+		} else {
+			jobs = append(jobs, job{in: in, apis: []string{c.API}, full: true, nrand: 4, extra: c.Reader, class: "replay"})
+		}
 	} else {
 		switch tier {
 		case "thorough":
@@ -783,6 +943,9 @@ func main() {
 		for _, l := range longLines() {
 			jobs = append(jobs, job{in: l, apis: []string{"decoder"}, nrand: 1, class: "long lines"})
 		}
+		for _, l := range bigLines(tier) {
+			jobs = append(jobs, job{in: l, apis: []string{"decoder"}, class: "very long lines (run-length form)", rle: true})
+		}
 	}
 	// one goroutine per shard (at most 8 at a time); everything a shard does depends only
 	// on VERIF_SEED and the shard number
@@ -822,6 +985,10 @@ func main() {
 		tot.sampled += r.sampled
 		tot.differ += r.differ
 		tot.diffInputs += r.diffInputs
+		tot.bigRuns += r.bigRuns
+		if len(tot.bigSamples) < 2 {
+			tot.bigSamples = append(tot.bigSamples, r.bigSamples...)
+		}
 		for k := range r.distinct {
 			tot.distinct[k] = true
 		}
@@ -849,6 +1016,10 @@ func main() {
 		"exhaustive_len": exhaustive, "sampled_len": sampledLen, "sampled_n": sampledN,
 		"inputs_by_class": r.byClass, "runs_by_eof_style": r.eofStyles,
 		"diffs": r.diffs, "samples": r.samples,
+		"runs_of_run_length_documents": r.bigRuns, "run_length_samples": r.bigSamples,
+	}
+	if r.bigSamples == nil {
+		res["run_length_samples"] = []interface{}{}
 	}
 	if r.diffs == nil {
 		res["diffs"] = []diffCase{}
